@@ -226,7 +226,15 @@ def _explore(comp, task):
         setup.apply(m)
         ex = IRExec(m, sent)
         try:
-            if mode == "c06":
+            if mode == "c03a":
+                # the separately generated assemble kernel must not store phantom coordinates either
+                run_kernel(m, ex, "assemble", args1)
+                counts = kassert.output_shape(m, out1, False, [])
+                eo = kassert.input_entries(m, setup.infos, setup.cache.setdefault("entries", {}))
+                flags["support_checks"] = flags.get("support_checks", 0) + (kassert.check_support(m, out1, comp.assignment, counts, eo) or 0)
+                if counts and counts[-1] > 0:
+                    flags["nonempty"] = True
+            elif mode == "c06":
                 from . import cfront, llfront
 
                 kinds = ["evaluate"] if task.get("program") == "evaluate" else ["assemble", "compute"]
